@@ -109,7 +109,7 @@ def inlineChanges (lnl : Bytes → List (Nat × Nat)) (repair : Bool) (old new :
     if old.size < o + ol || new.size < n + nl then .error .panic else
     let oLines := (old.toList.drop o).take ol
     let nLines := (new.toList.drop n).take nl
-    if upperSeqRatio oLines.length nLines.length < 0.5 then (inlinePlain old new x).map (·, w) else
+    if F32.lt (upperSeqRatio oLines.length nLines.length) F32.half then (inlinePlain old new x).map (·, w) else
     let oSeqs := (multiLookup 0 oLines segO).toArray
     let nSeqs := (multiLookup 0 nLines segN).toArray
     let E := Env.ofTokens (oSeqs.map (·.1)) (nSeqs.map (·.1))
@@ -117,7 +117,7 @@ def inlineChanges (lnl : Bytes → List (Nat × Nat)) (repair : Bool) (old new :
     | .error e => .error e
     | .ok (ops, w) =>
       let (a, b) := ratioPair ops oSeqs.size nSeqs.size
-      if ratioF (a / 2) b < 0.5 then (inlinePlain old new x).map (·, w) else
+      if F32.lt (ratioF (a / 2) b) F32.half then (inlinePlain old new x).map (·, w) else
       match inlineApplyOps lnl oLines.toArray nLines.toArray oSeqs nSeqs ops #[] #[] with
       | .error e => .error e
       | .ok (ov, nv) => .ok (numberFrom .delete false o ov.toList ++ numberFrom .insert true n nv.toList, w)
